@@ -1,10 +1,15 @@
 import Oracle.Util
 import MobiusModel.SessionOracle
+import MobiusModel.KickTimer
 /-! Oracle handlers for C17: the Session / Scan / readFull / BanGate model on the line protocol
     (argument parsing and printing live in MobiusModel/SessionOracle.lean). -/
 namespace Oracle
 open Mobius
 
-def c17Handlers : List (String × Handler) := SessionOracle.handlers
+def c17Handlers : List (String × Handler) := SessionOracle.handlers ++ [
+  -- kickhist <op,op,…> : connection-level events (add | spin:<id> | leave:<n> | timer:<n>) through Kick.step
+  ("kickhist", fun (a : List String) => match a with
+    | [ops] => Kick.oracleLine ops
+    | _ => "bad-op")]
 
 end Oracle
